@@ -7,7 +7,13 @@ the real code before it is reported as a failing input).  No floating-point arit
 (it would need rounding): comparison with ints / floats (CPython compares by mathematical value;
 every comparison with NaN is False), math.isinf / isnan, int(x) (truncation toward zero; ValueError
 for NaN, OverflowError for infinities), math.floor / ceil / trunc and round(x) (half to even) as ints.
-The sign of zero is not tracked.
+The sign bit is tracked separately (`neg`): for a finite non-zero value it is the sign of the real, for zero,
+infinities and NaN it is free, so -0.0 and 0.0 are distinct values that compare equal.  Exact operations that
+need no rounding are modelled: negation, fabs, copysign, and float(n) for an integer n obtained from
+floor / ceil / trunc / round of a float (exact for doubles: below 2^53 every integer is a double, above it the
+float is its own floor; an ASSUMED fact about binary64, since the model's reals are a superset of the doubles).
+math.sqrt is modelled only as far as its special cases go (ValueError for negative operands, sqrt(+-0) = +-0,
+sqrt(+inf) = +inf, NaN for NaN, otherwise some finite non-negative value).
 """
 import math as _math
 from fractions import Fraction
@@ -26,11 +32,11 @@ class SymFloat:
             return x
         if isinstance(x, float):
             if _math.isnan(x):
-                return SymFloat(z3.BoolVal(True), z3.BoolVal(False), z3.BoolVal(False), z3.RealVal(0))
+                return SymFloat(z3.BoolVal(True), z3.BoolVal(False), z3.BoolVal(_math.copysign(1.0, x) < 0), z3.RealVal(0))
             if _math.isinf(x):
                 return SymFloat(z3.BoolVal(False), z3.BoolVal(True), z3.BoolVal(x < 0), z3.RealVal(0))
             f = Fraction(x)
-            return SymFloat(z3.BoolVal(False), z3.BoolVal(False), z3.BoolVal(x < 0), z3.RealVal(f.numerator) / z3.RealVal(f.denominator))
+            return SymFloat(z3.BoolVal(False), z3.BoolVal(False), z3.BoolVal(_math.copysign(1.0, x) < 0), z3.RealVal(f.numerator) / z3.RealVal(f.denominator))
         if isinstance(x, (int, SymInt, SymBool)):
             return SymFloat(z3.BoolVal(False), z3.BoolVal(False), z3.BoolVal(False), z3.ToReal(as_z3_int(x)))
         return None
@@ -73,7 +79,21 @@ class SymFloat:
     def _unsupported(self, *a):
         raise S.Undecided("floating-point arithmetic on a symbolic float is not modelled")
 
-    __add__ = __radd__ = __sub__ = __rsub__ = __mul__ = __rmul__ = __truediv__ = __rtruediv__ = __neg__ = __abs__ = _unsupported
+    __add__ = __radd__ = __sub__ = __rsub__ = __mul__ = __rmul__ = __truediv__ = __rtruediv__ = _unsupported
+
+    def __neg__(self):
+        return SymFloat(self.nan, self.inf, z3.Not(self.neg), -self.r)
+
+    def __abs__(self):
+        return SymFloat(self.nan, self.inf, z3.BoolVal(False), z3.If(self.r < 0, -self.r, self.r))
+
+    def __round__(self, *a):
+        if a:
+            raise S.Undecided("round(x, ndigits) on a symbolic float is not modelled")
+        return self.to_int("round")
+
+    def __float__(self):
+        raise S.Undecided("a symbolic float reached C code that needs a concrete double")
 
     # ---- conversions
     def to_int(self, mode="trunc"):
@@ -82,13 +102,27 @@ class SymFloat:
             raise ValueError("cannot convert float NaN to integer")
         if c.decide(self.inf):
             raise OverflowError("cannot convert float infinity to integer")
-        return SymInt(real_to_int(self.r, mode))
+        n = SymInt(real_to_int(self.r, mode))
+        _FROM_FLOAT[n.e.get_id()] = (n.e, self)
+        return n
 
     def isinf(self):
         return mkb(self.inf)
 
     def isnan(self):
         return mkb(self.nan)
+
+
+_FROM_FLOAT = {}      # id of an integer term -> (term, the float it was rounded from)
+
+
+def float_of_int(n):
+    """float(n): exact when n was obtained by rounding a float to an integral value (see module docstring)"""
+    if isinstance(n, SymInt):
+        hit = _FROM_FLOAT.get(n.e.get_id())
+        if hit is not None and hit[0].eq(n.e):
+            return SymFloat(z3.BoolVal(False), z3.BoolVal(False), z3.ToReal(n.e) < 0, z3.ToReal(n.e))
+    raise S.Undecided("float(symbolic int) needs rounding, not modelled")
 
 
 def real_to_int(r, mode):
@@ -112,7 +146,7 @@ def fresh(name):
     r = z3.Real(name + ".real")
     c = ctx()
     c.assume(z3.Not(z3.And(nan, inf)))
-    c.assume(z3.Implies(z3.And(z3.Not(nan), z3.Not(inf)), neg == (r < 0)))
+    c.assume(z3.Implies(z3.And(z3.Not(nan), z3.Not(inf), r != 0), neg == (r < 0)))
     return SymFloat(nan, inf, neg, r)
 
 
@@ -143,14 +177,55 @@ class math_proxy:
         return x.to_int("trunc") if isinstance(x, SymFloat) else _math.trunc(x)
 
 
+    @staticmethod
+    def fabs(x):
+        return abs(x) if isinstance(x, SymFloat) else _math.fabs(x)
+
+    @staticmethod
+    def copysign(x, y):
+        if not isinstance(x, SymFloat) and not isinstance(y, SymFloat):
+            return _math.copysign(x, y)
+        a, b = SymFloat.of(x), SymFloat.of(y)
+        mag = z3.If(a.r < 0, -a.r, a.r)
+        return SymFloat(a.nan, a.inf, b.neg, z3.If(b.neg, -mag, mag))
+
+    @staticmethod
+    def sqrt(x):
+        if not isinstance(x, SymFloat):
+            return _math.sqrt(x)
+        c = ctx()
+        if c.decide(x.nan):
+            return x
+        if c.decide(x.inf):
+            if c.decide(x.neg):
+                raise ValueError("math domain error")
+            return x
+        if c.decide(x.r < 0):
+            raise ValueError("math domain error")
+        if c.decide(x.r == 0):
+            return x                                   # sqrt(-0.0) == -0.0
+        r = z3.Real(c.fresh_name("sqrt"))
+        c.assume(r > 0)                                  # some positive finite value (rounding not modelled)
+        return SymFloat(z3.BoolVal(False), z3.BoolVal(False), z3.BoolVal(False), r)
+
+
 MATH = math_proxy()
+
+
+def feq(a, b):
+    """the same float VALUE (bit pattern up to NaN payload): both NaN, or same infinity, or same real and sign"""
+    a, b = SymFloat.of(a), SymFloat.of(b)
+    return mkb(z3.simplify(z3.Or(z3.And(a.nan, b.nan),
+                                 z3.And(z3.Not(a.nan), z3.Not(b.nan), a.inf == b.inf, a.neg == b.neg, z3.Or(a.inf, a.r == b.r)))))
 
 
 def sym_float(x=0.0):
     if isinstance(x, SymFloat):
         return x
-    if isinstance(x, (SymInt, SymBool)):
-        raise S.Undecided("float(symbolic int) needs rounding, not modelled")
+    if isinstance(x, SymBool):
+        raise S.Undecided("float(symbolic bool) not modelled")
+    if isinstance(x, SymInt):
+        return float_of_int(x)
     return float(x)
 
 
@@ -169,9 +244,14 @@ def model_float(model, v):
     if z3.is_true(model.eval(v.inf, model_completion=True)):
         return float("-inf") if z3.is_true(model.eval(v.neg, model_completion=True)) else float("inf")
     q = model.eval(v.r, model_completion=True)
+    neg = z3.is_true(model.eval(v.neg, model_completion=True))
     try:
         if z3.is_rational_value(q):
-            return float(Fraction(q.numerator_as_long(), q.denominator_as_long()))
-        return float(q.approx(20).as_fraction())
+            x = float(Fraction(q.numerator_as_long(), q.denominator_as_long()))
+        else:
+            x = float(q.approx(20).as_fraction())
     except Exception:
-        return 0.0
+        x = 0.0
+    if x == 0:
+        return -0.0 if neg else 0.0
+    return x
